@@ -32,6 +32,8 @@ use std::str::FromStr;
 use std::time::Duration;
 
 pub const OP_TIMEOUT_S: u64 = 30;
+/// bounded progress in no-wait mode: retries (2 ms apart) before a missing tail counts as lost
+pub const NOWAIT_RETRIES: u32 = 400;
 
 #[derive(Debug)]
 pub enum Stop {
@@ -134,7 +136,7 @@ pub enum Op {
     Poll { part: u32, kind: PollKind, value: u64, count: u32, who: Ident, commit: bool },
     Flush { part: u32, fsync: bool },
     SaveTick { fsync: bool },
-    Restart { mode: RestartMode, drop_index: bool },
+    Restart { mode: RestartMode, drop_index: bool, #[serde(default)] quiesce: bool },
     Purge,
     Store { part: u32, who: Ident, offset: u64 },
     GetOffset { part: u32, who: Ident },
@@ -519,7 +521,9 @@ impl World {
     }
 
     /// Exact-slice oracle (C02 `slice`): `got` must equal the model slice [lo, hi] (inclusive; empty if lo > hi).
-    fn check_slice(&mut self, part: u32, got: &PolledMessages, lo: u64, hi: u64, empty: bool, ctx: Value) -> R<()> {
+    /// With `allow_prefix` (no-wait confirmation: acknowledged writes may still be in flight) a strict
+    /// prefix of the expected slice is tolerated and reported as `Ok(false)`; the caller retries.
+    fn check_slice(&mut self, part: u32, got: &PolledMessages, lo: u64, hi: u64, empty: bool, ctx: Value, allow_prefix: bool) -> R<bool> {
         for m in &got.messages {
             self.check_message(part, m, &ctx)?;
         }
@@ -527,14 +531,17 @@ impl World {
         let got_offs: Vec<u64> = got.messages.iter().map(|m| m.offset).collect();
         let exp: Vec<u64> = if empty || lo > hi { vec![] } else { (lo..=hi).collect() };
         if got_offs != exp {
-            let kind = classify(&got_offs, &exp);
+            if allow_prefix && got_offs.len() < exp.len() && exp.starts_with(&got_offs) {
+                return Ok(false);
+            }
+            let kind = if self.cfg.no_wait { "not-prefix-inflight" } else { classify(&got_offs, &exp) };
             let tier = self.tier_class(part, lo, hi);
-            let w = json!({"ctx": ctx, "partition": part, "expected": compress(&exp), "got": compress(&got_offs), "tier": tier,
+            let w = json!({"ctx": ctx, "partition": part, "expected": compress(&exp), "got": compress(&got_offs), "tier": tier, "mismatch": classify(&got_offs, &exp),
                 "model": {"cur": self.part(part).map(|p| p.cur()), "earliest": self.part(part).map(|p| p.earliest), "persisted": self.part(part).map(|p| p.persisted)}});
             let mode = if self.cfg.no_wait { "nowait" } else { "wait" };
             return Err(viol("C02", "slice", &format!("{kind}/{mode}"), self.witness(w)));
         }
-        Ok(())
+        Ok(true)
     }
 
     /// coverage classification of a window (never used for the verdict)
@@ -577,7 +584,7 @@ impl World {
                 Ok(r) => r,
                 Err(e) => {
                     let w = json!({"partition": part, "scan_from": start, "error": e.to_string()});
-                    return Err(viol("C02", "slice", "poll-error", self.witness(w)));
+                    return Err(viol("C02", "slice", if self.cfg.no_wait { "poll-error/nowait" } else { "poll-error/wait" }, self.witness(w)));
                 }
             };
             for m in &r.messages {
@@ -612,14 +619,25 @@ impl World {
                 let p = self.part(id).unwrap();
                 (p.cur(), p.earliest, p.msgs.len() as u64)
             };
-            let seen = self.scan_offsets(id).await?;
-            self.eval("C02:slice");
             let exp: Vec<u64> = (earliest..len).collect();
+            let mut seen = self.scan_offsets(id).await?;
+            if self.cfg.no_wait && why != "after-restart" {
+                // bounded progress: acknowledged no-wait writes must become readable
+                let mut tries = 0;
+                while seen != exp && seen.len() < exp.len() && exp.starts_with(&seen) && tries < NOWAIT_RETRIES {
+                    tries += 1;
+                    self.event("nowait_lag_observed");
+                    tokio::time::sleep(Duration::from_millis(2)).await;
+                    seen = self.scan_offsets(id).await?;
+                }
+            }
+            self.eval("C02:slice");
             if seen != exp {
                 let kind = classify(&seen, &exp);
                 let mode = if self.cfg.no_wait { "nowait" } else { "wait" };
                 let w = json!({"why": why, "partition": id, "scan_expected": compress(&exp), "scan_got": compress(&seen), "cur": cur});
                 let (prop, clause) = if why == "after-restart" { ("C03", "restart-scan") } else { ("C02", "slice") };
+                let kind = if self.cfg.no_wait && !(seen.len() < exp.len() && exp.starts_with(&seen)) { "not-prefix-inflight" } else { kind };
                 return Err(viol(prop, clause, &format!("scan-{kind}/{mode}"), self.witness(w)));
             }
             self.eval("C16:messages-count");
@@ -682,7 +700,7 @@ impl World {
                 self.shape.push("save");
                 Ok(())
             }
-            Op::Restart { mode, drop_index } => self.op_restart(mode, drop_index).await,
+            Op::Restart { mode, drop_index, quiesce } => self.op_restart(mode, drop_index, quiesce).await,
             Op::Purge => self.op_purge().await,
             Op::Store { part, who, offset } => self.op_store(part, who, offset).await,
             Op::GetOffset { part, who } => self.op_get_offset(part, who).await,
@@ -914,7 +932,7 @@ impl World {
             Ok(g) => g,
             Err(err) => {
                 let w = json!({"poll": format!("{kind:?}"), "value": value, "count": count, "error": err.to_string()});
-                return Err(viol("C02", "slice", "poll-error", self.witness(w)));
+                return Err(viol("C02", "slice", if self.cfg.no_wait { "poll-error/nowait" } else { "poll-error/wait" }, self.witness(w)));
             }
         };
         let ctx = json!({"poll": format!("{kind:?}"), "value": value, "count": count, "who": format!("{who:?}"), "got": Self::describe(&got.messages)});
@@ -984,7 +1002,34 @@ impl World {
         } else {
             self.event("poll_expected_empty");
         }
-        self.check_slice(part, &got, lo, hi, empty, ctx.clone())?;
+        let mut got = got;
+        let mut tries = 0u32;
+        loop {
+            let exact = self.check_slice(part, &got, lo, hi, empty, ctx.clone(), self.cfg.no_wait)?;
+            if exact {
+                break;
+            }
+            // no-wait: a prefix was returned while acknowledged writes may still be in flight.
+            self.event("nowait_lag_observed");
+            if commit {
+                // the poll committed what it returned; re-polling would change the state
+                break;
+            }
+            tries += 1;
+            if tries > NOWAIT_RETRIES {
+                let got_offs: Vec<u64> = got.messages.iter().map(|m| m.offset).collect();
+                let w = json!({"ctx": ctx, "partition": part, "expected": format!("[{lo}..{hi}]"), "got": compress(&got_offs), "retries": tries});
+                return Err(viol("C02", "slice", "short-after-quiescence/nowait", self.witness(w)));
+            }
+            tokio::time::sleep(Duration::from_millis(2)).await;
+            got = match self.raw_poll(part, &strat, count, &cons, false).await? {
+                Ok(g) => g,
+                Err(err) => {
+                    let w = json!({"ctx": ctx, "error": err.to_string()});
+                    return Err(viol("C02", "slice", if self.cfg.no_wait { "poll-error/nowait" } else { "poll-error/wait" }, self.witness(w)));
+                }
+            };
+        }
         if matches!(kind, PollKind::Next) {
             self.eval("C07:next-after-stored");
         }
@@ -1133,9 +1178,15 @@ impl World {
         self.verify_all_offsets("after-purge").await
     }
 
-    async fn op_restart(&mut self, mode: RestartMode, drop_index: bool) -> R<()> {
-        // before-image (metamorphic part of C03): taken through the API
-        self.checkpoint("before-restart").await?;
+    async fn op_restart(&mut self, mode: RestartMode, drop_index: bool, quiesce: bool) -> R<()> {
+        // before-image (metamorphic part of C03): taken through the API. In no-wait mode the checkpoint
+        // waits (bounded) until every acknowledged write is readable; `quiesce == false` skips it so that
+        // a graceful shutdown right after no-wait sends is exercised too.
+        if quiesce || !self.cfg.no_wait {
+            self.checkpoint("before-restart").await?;
+        } else {
+            self.event("nowait_restart_without_quiescence");
+        }
         let before = self.get_topic().await?;
         if mode == RestartMode::FlushAll {
             let ids: Vec<u32> = self.parts.iter().map(|p| p.id).collect();
@@ -1202,7 +1253,8 @@ impl World {
             if pa.messages_count != pb.messages_count || pa.segments_count != pb.segments_count {
                 let w = json!({"partition": pb.id, "before": {"messages": pb.messages_count, "segments": pb.segments_count},
                     "after": {"messages": pa.messages_count, "segments": pa.segments_count}});
-                return Err(viol("C16", "restart-same-count", "partition", self.witness(w)));
+                let mode = if self.cfg.no_wait { "nowait" } else { "wait" };
+                return Err(viol("C16", "restart-same-count", &format!("partition/{mode}"), self.witness(w)));
             }
         }
         self.checkpoint("after-restart").await?;
